@@ -11,5 +11,8 @@ CONSTANTS
   MainSigs = {"none"}
   RunNames = {}
   SubMain = {FALSE}
+  BodyForms = {"plain"}
+  FnPositions = {"mixed"}
+  NoDups = FALSE
 INVARIANTS MCInv Emit
 CHECK_DEADLOCK FALSE
